@@ -60,11 +60,11 @@ theorem foldl_observe_cons (b : V) (bs : List V) :
     by_cases ho : Val.le o b = true
     · simp only [ho, if_true]
       rw [foldl_observe_cons b bs os _ cs, addOnes_shift]
-      simp [ho, List.countP_cons, addOnes]
+      simp [ho, addOnes]
     · have ho' : Val.le o b = false := by simpa using ho
       simp only [ho', Bool.false_eq_true, if_false]
       rw [foldl_observe_cons b bs os c _]
-      simp [ho', List.countP_cons]
+      simp [ho']
 
 /-- the non-cumulative cells after the observations `obs` -/
 def cellsOf (bs : List V) (obs : List V) : List V :=
@@ -77,13 +77,13 @@ theorem countP_split (p q : V → Bool) (himp : ∀ o, p o = true → q o = true
     have ih := countP_split p q himp os
     by_cases hp : p o = true
     · have hq := himp o hp
-      simp [List.countP_cons, hp, hq]
+      simp [hp, hq]
       omega
     · have hp' : p o = false := by simpa using hp
       by_cases hq : q o = true
-      · simp [List.countP_cons, hp', hq]; omega
+      · simp [hp', hq]; omega
       · have hq' : q o = false := by simpa using hq
-        simp [List.countP_cons, hp', hq']; omega
+        simp [hp', hq']; omega
 
 theorem countP_add_filter_not (p : V → Bool) :
     ∀ obs : List V, obs.countP p + (obs.filter (fun o => !p o)).length = obs.length
@@ -91,9 +91,9 @@ theorem countP_add_filter_not (p : V → Bool) :
   | o :: os => by
     have ih := countP_add_filter_not p os
     by_cases hp : p o = true
-    · simp [List.countP_cons, hp]; omega
+    · simp [hp]; omega
     · have hp' : p o = false := by simpa using hp
-      simp [List.countP_cons, hp']; omega
+      simp [hp']; omega
 
 /-- **Cumulation.**  Accumulating the non-cumulative cells gives, for every bound, the number of observations below
 or on it. -/
